@@ -108,6 +108,11 @@ func EndBlocker(ctx sdk.Context, k keeper.Keeper) {
 						sdk.NewAttribute(types.AttributeKeyConsumer, requestContext.Consumer),
 					),
 				})
+				// the price cannot be converted now: skip this batch like one without
+				// available providers, so the entry is removed and the context is
+				// re-scheduled when the skipped batch expires
+				k.SkipCurrentRequestBatch(ctx, requestContextID, *requestContext)
+				k.DeleteNewRequestBatch(ctx, requestContextID, ctx.BlockHeight())
 				return
 			}
 
